@@ -91,6 +91,14 @@ fn check_batch(acc: &mut Acc, c: &Cfg, base: u64, ys: &[u16], us: &[u16], vs: &[
     acc.bucket("tolerated full-range chroma 0->1", zero_to_one);
 }
 
+fn run_items(acc: &mut Acc, c: &Cfg, it: &[[u16; 3]]) {
+    let (ys, us, vs): (Vec<u16>, Vec<u16>, Vec<u16>) = (it.iter().map(|t| t[0]).collect(), it.iter().map(|t| t[1]).collect(), it.iter().map(|t| t[2]).collect());
+    check_batch(acc, c, 0, &ys, &us, &vs);
+}
+fn items_from(v: &Value) -> Vec<[u16; 3]> {
+    v.as_array().unwrap().iter().map(|t| [t[0].as_u64().unwrap() as u16, t[1].as_u64().unwrap() as u16, t[2].as_u64().unwrap() as u16]).collect()
+}
+
 pub fn run(tier: Tier) -> Report {
     let mut rep = Report::new("C08");
     let cfgs = configs();
@@ -110,6 +118,8 @@ pub fn run(tier: Tier) -> Report {
                     vs.push(t[2]);
                 }
                 check_batch(acc, c, base + lo, &ys, &us, &vs);
+                let items: Vec<[u16; 3]> = (0..ys.len()).map(|i| [ys[i], us[i], vs[i]]).collect();
+                refine_violations(acc, base + lo, &items, 1, &|a, it| run_items(a, c, it), &|it| json!(it));
                 if lo == 0 && c.m == MC::BT709 && c.n == 10 {
                     acc.sample(json!({"cfg": c.json(), "triple": [ys[len/2],us[len/2],vs[len/2]], "note": "decoded by Rgb::try_from(&yuv), re-encoded by Yuv::try_from((rgb, cfg)), compared code by code"}));
                 }
@@ -135,7 +145,8 @@ pub fn replay(case: &Value) -> (bool, String) {
     let c = Cfg::from_json(&case["cfg"]);
     let t: Vec<u16> = case["yuv"].as_array().unwrap().iter().map(|v| v.as_u64().unwrap() as u16).collect();
     let mut acc = Acc::default();
-    check_batch(&mut acc, &c, 0, &[t[0]], &[t[1]], &[t[2]]);
+    let (items, shape) = replay_items(case, vec![[t[0], t[1], t[2]]], &items_from);
+    with_shape(shape, || run_items(&mut acc, &c, &items));
     match acc.viols.values().next() {
         Some(v) => (true, format!("{} :: {}", v.key, v.detail)),
         None => (false, "ok".to_string()),
